@@ -47,6 +47,7 @@ C18(pre, e) == Completed(e) => PureOK(e) /\ (~e.mut => e.post = pre)
 
 Obl(p, pre, e) ==
   CASE p = "C06" -> C06(pre, e)
+    [] p = "C12" -> (e.op = "FromJSON" => C06(pre, e))
     [] p = "C15" -> C15(pre, e)
     [] p = "C17" -> SilentOK(e)
     [] p = "C18" -> C18(pre, e)
